@@ -661,7 +661,8 @@ impl<H: Hooks> Gen<H> {
                     Some(h) => format!("wr {} {}", h, self.fresh_v()),
                     None => continue,
                 },
-                "fork" | "clear" => op.to_string(),
+                "fork" => (if self.ex.alt.is_some() && self.rng.chance(0.5) { "forkfrom" } else { "fork" }).to_string(),
+                "clear" => op.to_string(),
                 "swap" if self.ex.alt.is_some() || self.rng.chance(0.1) => op.to_string(),
                 "reserve" => format!("reserve {}", self.rng.below(65)),
                 "rt" => {
